@@ -120,16 +120,30 @@ func New(cfg Config) (*Sim, error) {
 	return s, nil
 }
 
-// SmallStore makes every store opened afterwards use small badger tables (the default 64 MiB arenas are zeroed on
-// every open, which dominates the cost of thousands of short scenarios). Logic is unaffected.
+// SmallStore makes every store opened afterwards use smaller badger memtables (the default 64 MiB arenas are zeroed
+// on every open, which dominates the cost of thousands of short scenarios) and installs a logger that counts
+// memtable flushes: while badger waits for a flush it polls with time.Sleep, which makes the bubble look quiescent
+// although the node is in the middle of an operation. Wait() uses the counter to settle. Logic is unaffected.
 func SmallStore() {
 	storage.VerifTuneOptions = func(o *badgerhold.Options) {
-		o.Options.MaxTableSize = 1 << 20
-		o.Options.ValueLogFileSize = 1 << 22
-		o.Options.NumMemtables = 2
-		o.Options.NumLevelZeroTables = 2
-		o.Options.NumLevelZeroTablesStall = 4
-		o.Options.ValueLogMaxEntries = 100000
+		o.Options.MaxTableSize = 16 << 20
+		o.Options.Logger = flushWatch{}
+	}
+}
+
+var flushes int64
+
+// Flushes returns the number of memtable flushes observed so far in this process.
+func Flushes() int64 { return atomic.LoadInt64(&flushes) }
+
+type flushWatch struct{}
+
+func (flushWatch) Errorf(string, ...interface{})   {}
+func (flushWatch) Warningf(string, ...interface{}) {}
+func (flushWatch) Infof(string, ...interface{})    {}
+func (flushWatch) Debugf(f string, _ ...interface{}) {
+	if strings.HasPrefix(f, "Flushing memtable") {
+		atomic.AddInt64(&flushes, 1)
 	}
 }
 
@@ -142,7 +156,7 @@ func (s *Sim) open() error {
 	}
 	s.Core = c
 	s.closed = false
-	synctest.Wait()
+	settle()
 	return nil
 }
 
@@ -174,14 +188,27 @@ func (s *Sim) Problems() []string {
 	return append([]string(nil), s.problems...)
 }
 
-// Wait blocks until every goroutine of the node is durably blocked (quiescent point).
-func (s *Sim) Wait() { synctest.Wait() }
+// Wait blocks until every goroutine of the node is durably blocked (quiescent point). If the store flushed a memtable
+// meanwhile, some goroutine may merely be polling with time.Sleep: a little virtual time is granted until no further
+// flush shows up.
+func (s *Sim) Wait() { settle() }
+
+func settle() {
+	synctest.Wait()
+	for i := 0; i < 200 && Flushes() != settledAt; i++ {
+		settledAt = Flushes()
+		time.Sleep(25 * time.Millisecond)
+		synctest.Wait()
+	}
+}
+
+var settledAt int64
 
 // Tick advances the virtual clock and waits for quiescence.
 func (s *Sim) Tick(d time.Duration) {
 	s.Step("tick", d.String())
 	time.Sleep(d)
-	synctest.Wait()
+	settle()
 }
 
 // Store of the node.
@@ -200,10 +227,10 @@ func (s *Sim) shutdown() {
 		return
 	}
 	s.closed = true
-	synctest.Wait()
+	settle()
 	s.Core.Close()
 	_ = s.Core.VerifCloseAgents()
-	synctest.Wait()
+	settle()
 	s.mu.Lock()
 	for _, p := range s.peers {
 		p.up = false
@@ -261,7 +288,7 @@ func (s *Sim) PeerUp(name string) *Peer {
 	p.up = true
 	p.mu.Unlock()
 	p.ch <- cla.NewConvergencePeerAppeared(p, p.EID)
-	synctest.Wait()
+	settle()
 	return p
 }
 
@@ -285,7 +312,7 @@ func (s *Sim) PeerUpWith(name string, setup func(*Peer)) *Peer {
 	p.up = true
 	p.mu.Unlock()
 	p.ch <- cla.NewConvergencePeerAppeared(p, p.EID)
-	synctest.Wait()
+	settle()
 	return p
 }
 
@@ -346,7 +373,7 @@ func (s *Sim) PeerDown(name string) {
 	ch := p.ch
 	p.mu.Unlock()
 	ch <- cla.NewConvergencePeerDisappeared(p, p.EID)
-	synctest.Wait()
+	settle()
 }
 
 // Deliver makes the neighbour hand a received bundle (given as wire bytes) to the node.
@@ -361,7 +388,7 @@ func (s *Sim) Deliver(from string, wire []byte) error {
 		return errors.New("no such peer")
 	}
 	p.ch <- cla.NewConvergenceReceivedBundle(p, s.NodeID, &b)
-	synctest.Wait()
+	settle()
 	return nil
 }
 
@@ -474,7 +501,7 @@ func (s *Sim) AddAgent(name string, eids ...string) *Agent {
 	s.agents = append(s.agents, a)
 	s.mu.Unlock()
 	s.Core.RegisterApplicationAgent(a)
-	synctest.Wait()
+	settle()
 	return a
 }
 
@@ -505,14 +532,14 @@ func (a *Agent) MessageSender() chan agent.Message   { return a.tx }
 func (a *Agent) Submit(b bpv7.Bundle) {
 	a.sim.Step("submit_agent", a.Name+" "+b.ID().String())
 	a.tx <- agent.BundleMessage{Bundle: b}
-	synctest.Wait()
+	settle()
 }
 
 // Submit hands a locally originated bundle to Core.SendBundle.
 func (s *Sim) Submit(b bpv7.Bundle) {
 	s.Step("submit", b.ID().String())
 	s.Core.SendBundle(&b)
-	synctest.Wait()
+	settle()
 }
 
 // Deliveries returns everything handed to mock agents so far.
